@@ -81,6 +81,16 @@ theorem C36_chunks_valid (a : CtorArgs) (c0 : Cons) (docs : List SD) (cs : List 
     rw [(consumeAll_params c0 docs).1]; exact construct_chunkShape_pos a c0 hc
   exact ⟨chunks_sum _ cs hpos h, chunks_entries _ cs hpos h⟩
 
+/-- FULL: along the dimensions chunk_shape specifies, no advertised chunk is larger than chunk_shape says
+    ("fixed-sized chunks with at most chunk_shape[k] elements; the last chunk can be smaller"). -/
+theorem C36_chunks_bounded (a : CtorArgs) (c0 : Cons) (docs : List SD) (cs : List (List Nat))
+    (hc : construct a = .ok c0) (h : chunks (consumeAll c0 docs) = .ok cs)
+    (k : Nat) (ch : List Nat) (b : Nat) (hch : cs[k]? = some ch) (hb : c0.chunkShape[k]? = some b) :
+    ∀ x ∈ ch, x ≤ b := by
+  have hpos : ∀ d ∈ (consumeAll c0 docs).chunkShape, 0 < d := by
+    rw [(consumeAll_params c0 docs).1]; exact construct_chunkShape_pos a c0 hc
+  exact chunks_bounded _ cs hpos h k ch b hch (by rw [(consumeAll_params c0 docs).1]; exact hb)
+
 /-- the one parameter class in which `chunks` crashes instead of answering -/
 def ScalarNoJoin (c : Cons) : Prop :=
   c.join = .concat ∧ c.joinChunks = false ∧ c.chunkShape ≠ [] ∧ c.datumShape = []
